@@ -1,6 +1,8 @@
 package c02
 
 import (
+	"crypto/sha256"
+	"encoding/hex"
 	"regexp"
 	"strings"
 
@@ -65,3 +67,10 @@ func classify(v *report.Violation) {
 }
 
 var reHolder = regexp.MustCompile(`which (\S+) holds \(unexpired\)`)
+
+// digest shortens a state dump to a 128-bit hash: the explorer keeps every fingerprint of a
+// run in memory (millions of multi-kilobyte dumps in the thorough tier otherwise).
+func digest(dump string) string {
+	h := sha256.Sum256([]byte(dump))
+	return hex.EncodeToString(h[:16])
+}
